@@ -281,9 +281,24 @@ pub fn plant(s: &mut Src, base: &G) -> Planted {
             };
             let levels = s.below(5);
             let piece = if levels == 0 { inner } else { chain_defs(s, &mut g, inner, levels, "SPC") };
-            let w = E::Word(vec![lit("--sp="), piece]);
+            let mut w = E::Word(vec![lit("--sp="), piece.clone()]);
+            let mut also = "";
+            if levels > 0 {
+                // the same definition is also used where blanks are fine (outside any word), before or after
+                match s.below(4) {
+                    0 => {
+                        w = E::Seq(vec![piece.clone(), w]);
+                        also = "-also-used-outside-before";
+                    }
+                    1 => {
+                        w = E::Seq(vec![w, piece.clone()]);
+                        also = "-also-used-outside-after";
+                    }
+                    _ => {}
+                }
+            }
             let (g2, deep) = attach(s, &g, w, true);
-            Planted { g: g2, class: Class::SubwordSpaces, only_shell: None, variant: format!("subword-spaces-behind-{levels}-definitions"), deep: deep || levels > 0, locus: vec![("lit".into(), "sp1".into()), ("lit".into(), "sp2".into())] }
+            Planted { g: g2, class: Class::SubwordSpaces, only_shell: None, variant: format!("subword-spaces-behind-{levels}-definitions{also}"), deep: deep || levels > 0, locus: vec![("lit".into(), "sp1".into()), ("lit".into(), "sp2".into())] }
         }
         9 => {
             // a placeholder inside a word that something can follow
